@@ -11,9 +11,12 @@ def einsum(equation, *operands):
     Log-sum-exp implementation of einsum.
     """
     if get_backend() != "jax":
-        # NB: rename symbols to support NumPy, which allow only symbols a-z.
+        # NB: rename symbols to support NumPy, which allow only symbols a-zA-Z.
         symbols = sorted(set(equation) - set(",->"))
-        rename = dict(zip(symbols, "abcdefghijklmnopqrstuvwxyz"))
+        alphabet = "abcdefghijklmnopqrstuvwxyzABCDEFGHIJKLMNOPQRSTUVWXYZ"
+        if len(symbols) > len(alphabet):
+            raise NotImplementedError("too many einsum dimensions")
+        rename = dict(zip(symbols, alphabet))
         equation = "".join(rename.get(s, s) for s in equation)
 
     inputs, output = equation.split("->")
